@@ -44,11 +44,15 @@ class Gamma:
         self.crypt = legacycrypt.crypt
         self.kind, self.enc, self.rnd = kind, encoding, rnd
         if kind == "htpasswd":
-            self.keys = {"u1": "alice", "u2": "b\xf6b", "u3": "carol-3"}
+            # u3: a name of exactly 255 bytes in this encoding (the longest admissible one)
+            self.keys = {"u1": "alice", "u2": "b\xf6b", "u3": ("\xe9" * 127 + "x") if encoding == "utf-8" else "\xe9" * 255}
         else:
-            self.keys = {"u1": ("alice", "r1"), "u2": ("b\xf6b", "r1"), "u3": ("alice", "realm two")}
+            self.keys = {"u1": ("alice", "r1"), "u2": ("b\xf6b", "r1"),
+                         "u3": ("alice", ("\xe9" * 127 + " ") if encoding == "utf-8" else "r\xe9alm " * 31 + "1234567")}
         self.pws = {"p1": "p\xe4ssword1", "p2": "other pw"}
-        self.bad = ["al:ice", "a\nb", "a\rb", "a\tb", "a\x00b", "x" * 256]
+        # refused names: separators, control characters, more than 255 BYTES (not characters)
+        self.bad = ["al:ice", "a\nb", "a\rb", "a\tb", "a\x00b", "x" * 256,
+                    "\xe9" * 128 if encoding == "utf-8" else "\xe9" * 256, "\xe9" * 200 if encoding == "utf-8" else "y" * 300]
 
     def enc_b(self, s):
         return s.encode(self.enc)
@@ -183,6 +187,11 @@ def call(G, f, st, path, stamp):
         elif op == "save":
             f.save()
             r = "ok"
+        elif op == "save_copy":
+            other = path + ".copy"
+            f.save(other)
+            r = "ok" if open(other, "rb").read() == f.to_string() else "copy-differs"
+            os.unlink(other)
         elif op == "load":
             r = f.load()
         elif op == "load_if_changed":
